@@ -244,7 +244,7 @@ package grpcgcp
 //@   requires gb.cfg == nil && lockinv(gb.mu)
 //@   ensures gb.cfg != nil && lockinv(gb.mu)
 //@   ensures [C17.defaults] minSizeOf(gb) >= 1 && maxSizeOf(gb) >= 1 && gb.cfg.GetChannelPool().GetMaxConcurrentStreamsLowWatermark() >= 1
-//@   ensures [C17.defaults-min] minSizeOf(gb) == ite(cfg != nil && cfg.ApiConfig != nil && cfg.ApiConfig.ChannelPool != nil && cfg.ApiConfig.ChannelPool.MinSize != 0, cfg.ApiConfig.ChannelPool.MinSize, 1)
+//@   ensures [C17,C03 defaults-min] minSizeOf(gb) == ite(cfg != nil && cfg.ApiConfig != nil && cfg.ApiConfig.ChannelPool != nil && cfg.ApiConfig.ChannelPool.MinSize != 0, cfg.ApiConfig.ChannelPool.MinSize, 1)
 //@   ensures [C17.defaults-max] maxSizeOf(gb) == ite(cfg != nil && cfg.ApiConfig != nil && cfg.ApiConfig.ChannelPool != nil && cfg.ApiConfig.ChannelPool.MaxSize != 0, cfg.ApiConfig.ChannelPool.MaxSize, 4)
 //@   ensures [C17.defaults-watermark] gb.cfg.GetChannelPool().GetMaxConcurrentStreamsLowWatermark() == ite(cfg != nil && cfg.ApiConfig != nil && cfg.ApiConfig.ChannelPool != nil && cfg.ApiConfig.ChannelPool.MaxConcurrentStreamsLowWatermark != 0, cfg.ApiConfig.ChannelPool.MaxConcurrentStreamsLowWatermark, 100)
 //@   ensures [C17.fidelity] cfg != nil && cfg.ApiConfig != nil && cfg.ApiConfig.ChannelPool != nil ==> gb.cfg.ApiConfig.ChannelPool.FallbackToReady == cfg.ApiConfig.ChannelPool.FallbackToReady && gb.cfg.ApiConfig.ChannelPool.UnresponsiveCalls == cfg.ApiConfig.ChannelPool.UnresponsiveCalls && gb.cfg.ApiConfig.ChannelPool.UnresponsiveDetectionMs == cfg.ApiConfig.ChannelPool.UnresponsiveDetectionMs && gb.cfg.ApiConfig.ChannelPool.BindPickStrategy == cfg.ApiConfig.ChannelPool.BindPickStrategy && gb.cfg.ApiConfig.ChannelPool.IdleTimeout == cfg.ApiConfig.ChannelPool.IdleTimeout
